@@ -192,6 +192,7 @@ def c03_family(tier, sd=0):
     add([("opt", ("u", 64)), ("opt", ("enum", "E5"))], E)
     add([("u", 2), ("dyn", ("f64",))])
     add([("a", 2, ("u", 3)), ("b", 0, ("i", 13)), ("c", 1, ("u", 8))])     # ids not in declaration order
+    add([("a", 2, ("u", 8)), ("b", 0, ("u", 8)), ("c", 1, ("u", 8))])      # ... with members of one C++ type (a mix-up compiles)
     add([("arr", ("struct", "In"), 2), ("u", 3)], structs=[In])
     add([("u", 3), ("enum", "E256"), ("enum", "E65535"), ("u", 2)], {"E256": mk_enum("E256", 256), "E65535": mk_enum("E65535", 65535)})
     add([("enum", "Ebig"), ("u", 1)], {"Ebig": mk_enum("Ebig", 2 ** 31 - 1)})
